@@ -49,7 +49,7 @@ def gen_classes(rng):
                 continue
             pyc[i] = k
             ids[k] = i
-            rows.append(dict(id=i, name="C%d" % i, bases=bases))
+            rows.append(dict(id=i, name="C%d" % i, bases=bases, falsy=rng.random() < 0.25))
             break
     table = []
     for cid, k in sorted(pyc.items()):
@@ -58,6 +58,7 @@ def gen_classes(rng):
         for r in rows:
             if r["id"] == cid:
                 row["bases"] = r["bases"]
+                row["falsy"] = r["falsy"]
         table.append(row)
     return table, pyc
 
